@@ -303,9 +303,40 @@ func checkSigToken(r *Report, m *spModel, sr *sigRoles) {
 			r.Check(ok2, rule, cons, p.InstrPos(in), "path condition implies (token == required => validator(el) == nil) for the same element", why)
 		}
 	}
-	// (2) producers: every call that passes a signature token
+	// (2) producers: every call that passes a signature token. A helper that only wraps the signature validator (verify
+	// and report the outcome) is analysed as part of the producer, so that the validator's result is the same atom whether
+	// the call sits in the producer or in the wrapper.
+	isVal := map[*ssa.Function]bool{}
+	for _, v := range sr.Validators {
+		isVal[v] = true
+	}
+	a2 := NewAnalysis(p)
+	a2.Inline = func(f *ssa.Function) bool {
+		if !p.InLibrary(f) || f.Pkg == nil || f.Pkg.Pkg.Path() != modPath || isVal[f] || sr.Unmarshal[f] || (f.Object() != nil && f.Object().Exported()) {
+			return false
+		}
+		if _, takesToken := slotOf(f, isSigReqType); takesToken && sr.Unmarshal != nil {
+			// a wrapper may take the token to decide whether to verify; the assertion parsers (which unmarshal) are consumers
+			for _, b := range f.Blocks {
+				for _, in := range b.Instrs {
+					if c, ok := in.(*ssa.Call); ok && c.Call.StaticCallee() != nil && sr.Unmarshal[c.Call.StaticCallee()] {
+						return false
+					}
+				}
+			}
+		}
+		for _, b := range f.Blocks {
+			for _, in := range b.Instrs {
+				if c, ok := in.(*ssa.Call); ok && c.Call.StaticCallee() != nil && isVal[c.Call.StaticCallee()] {
+					return true
+				}
+			}
+		}
+		return false
+	}
+	B = a2.B
 	for _, caller := range sortedFns(p, m.Sc.Consume) {
-		cfc := a.Ctx(caller)
+		cfc := a2.Ctx(caller)
 		for _, b := range caller.Blocks {
 			for _, in := range b.Instrs {
 				c, ok := in.(*ssa.Call)
@@ -353,7 +384,11 @@ func checkSigToken(r *Report, m *spModel, sr *sigRoles) {
 					elArg = c.Call.Args[ei]
 				}
 				elOK := false
-				for _, vc := range validatorCalls(cfc, sr) {
+				var vcs2 []vcall
+				for _, xc := range ctxsOf(a2, cfc) {
+					vcs2 = append(vcs2, validatorCalls(xc, sr)...)
+				}
+				for _, vc := range vcs2 {
 					if !B.HasVar(vc.Atom) {
 						continue
 					}
@@ -994,10 +1029,17 @@ func checkNSMatch(r *Report, m *spModel, sr *sigRoles) {
 						continue
 					}
 					j := strings.Join(ai.Args, " ")
-					if strings.Contains(j, ".Tag") && paramRooted(fn, ai.Args) {
+					rooted := paramRooted(fn, ai.Args)
+					for _, ov := range ai.Vals {
+						// the requested name may arrive as a field of a small struct parameter
+						if _, path, ok := fieldChainOf(fn, ov); ok && len(path) > 0 && isStringType(ov.Type()) {
+							rooted = true
+						}
+					}
+					if strings.Contains(j, ".Tag") && rooted {
 						tagOK = true
 					}
-					if strings.Contains(j, "LookupPrefix") && paramRooted(fn, ai.Args) {
+					if strings.Contains(j, "LookupPrefix") && rooted {
 						nsOK = true
 					}
 				}
